@@ -17,6 +17,8 @@ func init() {
 		ruleDef{"C06.R5", c06r5},
 		ruleDef{"C06.R6", c06r6},
 		ruleDef{"C06.R7", c06r7},
+		// the value forwarded is computed from this request's record on each request (a cache keyed by anything but the connection would serve another connection's value)
+		ruleDef{"C06.R8", func(r *R) { injectedValueProvenance(r, "C06.R8") }},
 	)
 }
 
@@ -627,11 +629,37 @@ func c06r7(r *R) {
 			if !ok {
 				return
 			}
-			if nt := namedOf(fa.X.Type()); nt != nil && longLived[typeName(nt)] {
+			if nt := namedOf(fa.X.Type()); nt != nil {
 				if _, fresh := addrRoot(fa.X).(*ssa.Alloc); fresh {
 					return
 				}
-				o.AtI(i).Fail("%s, reachable from the request path, writes %s.%s: these objects are shared by all connections", funcName(f), typeName(nt), fieldName(fa.X.Type(), fa.Field))
+				tn := typeName(nt)
+				if longLived[tn] {
+					o.AtI(i).Fail("%s, reachable from the request path, writes %s.%s: these objects are shared by all connections", funcName(f), tn, fieldName(fa.X.Type(), fa.Field))
+					return
+				}
+				// any other struct of the proxy's own packages written through a pointer that was not allocated by this
+				// activation: only the per-connection record and per-request objects may be written on the request path
+				pk := ""
+				if nt.Obj().Pkg() != nil {
+					pk = nt.Obj().Pkg().Path()
+				}
+				own := false
+				for _, ap := range appPkgs {
+					if pk == modPath+"/"+ap || (ap == "" && pk == modPath) {
+						own = true
+					}
+				}
+				if pk == modPath+"/pkg/metadata" {
+					own = true // only the per-connection record types below may be written
+				}
+				if pk == modPath+"/pkg/ja3" || pk == modPath+"/pkg/ja4" {
+					own = false // parse structs filled by their own methods, allocated per call by the fingerprint functions (C01.R1 / C02.R1)
+				}
+				perConn := map[string]bool{"metadata.Metadata": true, "metadata.HTTP2FingerprintingFrames": true}
+				if own && !perConn[tn] {
+					o.AtI(i).Fail("%s, reachable from the request path, writes %s.%s through a pointer it did not allocate: configuration objects are shared by all connections", funcName(f), tn, fieldName(fa.X.Type(), fa.Field))
+				}
 			}
 		})
 	}
